@@ -57,6 +57,35 @@ Section CompleteExists.
   Qed.
 End CompleteExists.
 
+(** monotonicity of CompleteValue in the leaf test, on JSON values *)
+Lemma complete_nn_mono_json (l1 l2 : str -> val -> bool) :
+  (forall n x, json x = true -> l1 n x = true -> l2 n x = true) ->
+  forall t v, json v = true -> complete_nn l1 t v = true -> complete_nn l2 t v = true.
+Proof.
+  intros Hl. induction t as [n | t' IH | p t' IH]; intros v Hj H; cbn [complete_nn] in *.
+  - apply Hl; assumption.
+  - apply IH; assumption.
+  - destruct v as [| | | | | |l|]; try discriminate.
+    rewrite forallb_forall in *. intros x Hx. specialize (H x Hx). pose proof (json_list l Hj x Hx) as Hjx.
+    destruct t' as [n | t'' | p' t'']; cbn [complete_nn] in *.
+    + apply orb_true_iff in H. apply orb_true_iff. destruct H as [H|H]; [left; exact H | right; apply Hl; assumption].
+    + apply andb_true_iff in H. destruct H as [H1 H2]. apply andb_true_iff. split; [exact H1|]. apply (IH x Hjx). exact H2.
+    + apply orb_true_iff in H. apply orb_true_iff. destruct H as [H|H]; [left; exact H | right]. apply (IH x Hjx). exact H.
+Qed.
+
+Lemma complete_mono_json (l1 l2 : str -> val -> bool) :
+  (forall n x, json x = true -> l1 n x = true -> l2 n x = true) ->
+  forall t v, json v = true -> complete l1 t v = true -> complete l2 t v = true.
+Proof.
+  intros Hl t v Hj H. unfold complete in *. destruct t as [n | t' | p t'].
+  - apply orb_true_iff in H. apply orb_true_iff. destruct H as [H|H]; [left; exact H | right].
+    eapply complete_nn_mono_json; eauto.
+  - apply andb_true_iff in H. destruct H as [H1 H2]. apply andb_true_iff. split; [exact H1|].
+    eapply complete_nn_mono_json; eauto.
+  - apply orb_true_iff in H. apply orb_true_iff. destruct H as [H|H]; [left; exact H | right].
+    eapply complete_nn_mono_json; eauto.
+Qed.
+
 (** * pieces of the tree *)
 Lemma leaves_ok_wrap lo oo g core : leaves_ok lo oo (wrap_tree g core) = leaves_ok lo oo core.
 Proof. induction g; cbn [wrap_tree leaves_ok]; auto. Qed.
@@ -90,6 +119,16 @@ Proof.
   - rewrite orb_true_iff, IH. split.
     + intros [H|[br [Hin H]]]; [exists b; split; [left; reflexivity | exact H] | exists br; split; [right; exact Hin | exact H]].
     + intros [br [[<-|Hin] H]]; [left; exact H | right; exists br; split; assumption].
+Qed.
+
+Lemma tree_den_object named okeys bs v :
+  tree_den named okeys (STObject bs) true v = true <-> exists br, In br bs /\ branch_den named okeys br v = true.
+Proof.
+  change (tree_den named okeys (STObject bs) true v) with
+    ((negb true && vis_null v)
+     || (fix go (l : list sbranch) : bool :=
+           match l with [] => false | b :: r => branch_den named okeys b v || go r end) bs).
+  cbn [negb andb orb]. apply go_branches.
 Qed.
 
 Lemma in_un_al fs p : In p fs -> In (snd p) (un_of fs ++ al_of fs).
@@ -148,7 +187,9 @@ Section PlainTree.
     set (mvars := flat_map (fun x => dirs_variables (sel_ds x)) sels) in *.
     set (asgs := match mvars with [] => [[]] | _ => assignments (unique mvars) end) in *.
     assert (Hasgs : asgs = all_asg (unique mvars)).
-    { unfold asgs. rewrite <- assignments_all_asg. destruct mvars; reflexivity. }
+    { assert (Hg : forall l : list str, match l with [] => [[]] | _ => assignments (unique l) end = all_asg (unique l))
+        by (intros [|a l]; [reflexivity | apply assignments_all_asg]).
+      apply Hg. }
     pose proof (mapM_Forall2 _ _ _ Hmap) as Hbs.
     split; [exact Hkind|].
     (* every branch of the tree *)
@@ -178,7 +219,7 @@ Section PlainTree.
       apply (branch_eq S F cf (type_for_selection_set S F n'') (mkBr ob beta) dd dp dn di ddirs dfs dkw Hlook
                        sels Hpl Hndk fs Hfs).
       - (* sub-selections: induction hypothesis *)
-        intros x fd tree' Hx Hs Hi Hfind Hrec.
+        intros x fd tree' Hx Hs Hi Htn0 Hfind Hrec.
         assert (Hlt : n'' < Datatypes.S (Datatypes.S n'')) by lia.
         assert (Hpx : plain_sel x = true) by (rewrite forallb_forall in Hpl; apply Hpl; exact Hx).
         apply (IHn n'' Hlt (sel_sub x) (fd_type fd) tree' (plain_sel_sub x Hpx Hs) Hrec).
@@ -206,7 +247,7 @@ Section PlainTree.
     (* the object level *)
     assert (Hobj : forall x, json x = true ->
               (tree_den named okeys (STObject bs) true x = true <-> exists f, DEN f T sels x = true)).
-    { intros x Hj. cbn [tree_den negb andb orb]. rewrite go_branches.
+    { intros x Hj. rewrite tree_den_object.
       destruct x as [| | | | | | |kvs].
       1-7: (split; [intros [br [_ H]]; destruct br as [tn un al]; cbn [branch_den] in H; destruct (okeys tn); discriminate
                    | intros [[|f] H]; discriminate]).
@@ -253,9 +294,7 @@ Section PlainTree.
       + exact Hj.
       + exact H.
       + exists f. rewrite complete_named. exact Hf.
-    - intros [f H]. rewrite complete_named in H. revert H. apply complete_mono.
-      intros _ x Hx. apply (Hobj x). 2: exists f; exact Hx.
-      (* json of x: not available here; use a version without json *)
-      admit.
-  Admitted.
+    - intros [f H]. rewrite complete_named in H. revert H. apply complete_mono_json; [|exact Hj].
+      intros _ x Hjx Hx. apply (Hobj x Hjx). exists f. exact Hx.
+  Qed.
 End PlainTree.
